@@ -14,13 +14,13 @@ import (
 // Names re-exported so that code written against package os compiles
 // unchanged against this package.
 type (
-	FileInfo    = fs.FileInfo
-	FileMode    = fs.FileMode
-	DirEntry    = fs.DirEntry
-	PathError   = fs.PathError
+	FileInfo     = fs.FileInfo
+	FileMode     = fs.FileMode
+	DirEntry     = fs.DirEntry
+	PathError    = fs.PathError
 	SyscallError = realos.SyscallError
-	LinkError   = realos.LinkError
-	Signal      = realos.Signal
+	LinkError    = realos.LinkError
+	Signal       = realos.Signal
 )
 
 const (
@@ -80,26 +80,26 @@ var (
 	Args   []string
 )
 
-func IsExist(err error) bool      { return realos.IsExist(err) }
-func IsNotExist(err error) bool   { return realos.IsNotExist(err) }
-func IsPermission(err error) bool { return realos.IsPermission(err) }
-func IsTimeout(err error) bool    { return realos.IsTimeout(err) }
-func IsPathSeparator(c uint8) bool { return c == '/' }
+func IsExist(err error) bool                    { return realos.IsExist(err) }
+func IsNotExist(err error) bool                 { return realos.IsNotExist(err) }
+func IsPermission(err error) bool               { return realos.IsPermission(err) }
+func IsTimeout(err error) bool                  { return realos.IsTimeout(err) }
+func IsPathSeparator(c uint8) bool              { return c == '/' }
 func NewSyscallError(s string, err error) error { return realos.NewSyscallError(s, err) }
 
 // Exit unwinds the simulated process with a status.
 func Exit(code int) { panic(ExitSentinel{code}) }
 
-func Getpid() int  { return 4000 + W.P.ID }
-func Getppid() int { return 1 }
-func Getuid() int  { return 1000 }
-func Getgid() int  { return 1000 }
-func Geteuid() int { return 1000 }
-func Getegid() int { return 1000 }
-func Getpagesize() int { return 4096 }
-func Hostname() (string, error) { return "simhost", nil }
-func Getwd() (string, error)    { return "/u", nil }
-func Chdir(string) error        { return errors.New("simos: chdir not simulated") }
+func Getpid() int                 { return 4000 + W.P.ID }
+func Getppid() int                { return 1 }
+func Getuid() int                 { return 1000 }
+func Getgid() int                 { return 1000 }
+func Geteuid() int                { return 1000 }
+func Getegid() int                { return 1000 }
+func Getpagesize() int            { return 4096 }
+func Hostname() (string, error)   { return "simhost", nil }
+func Getwd() (string, error)      { return "/u", nil }
+func Chdir(string) error          { return errors.New("simos: chdir not simulated") }
 func Executable() (string, error) { return "/usr/bin/gts", nil }
 
 func Getenv(k string) string { v, _ := LookupEnv(k); return v }
@@ -137,7 +137,7 @@ func Environ() []string {
 	sort.Strings(out)
 	return out
 }
-func ExpandEnv(s string) string { return realos.Expand(s, Getenv) }
+func ExpandEnv(s string) string                     { return realos.Expand(s, Getenv) }
 func Expand(s string, m func(string) string) string { return realos.Expand(s, m) }
 
 // TempDir returns the simulated temp directory.
@@ -163,8 +163,10 @@ func UserCacheDir() (string, error) {
 	return w.Env.CacheHome, nil
 }
 
-func UserHomeDir() (string, error)   { return "", errors.New("$HOME is not defined") }
-func UserConfigDir() (string, error) { return "", errors.New("neither $XDG_CONFIG_HOME nor $HOME are defined") }
+func UserHomeDir() (string, error) { return "", errors.New("$HOME is not defined") }
+func UserConfigDir() (string, error) {
+	return "", errors.New("neither $XDG_CONFIG_HOME nor $HOME are defined")
+}
 
 // simple runs the fault protocol shared by metadata operations.
 func (w *World) simple(kind, path string) error {
